@@ -29,7 +29,8 @@ RULE_TPL = ("(1) every sequence of length <= N over the 22-token alphabet %r (N=
         "(%d strings: same-line bodies, odd spacing, mixed quote styles, decorators, continuations); (5) every sequence "
         "of length 5..6 (thorough: ..7) over the 8 tokens that open, close and join string literals; (6) seeded expression "
         "statements built from string literals and operators (concatenation, %%-formatting, conditional expressions, implicit "
-        "concatenation, calls) at module level, in a def, in a class, after a docstring")
+        "concatenation, calls) at module level, in a def, in a class, after a docstring; (7) every sequence of length <= 3 "
+        "(thorough: <= 4) doubled and tripled, every header x body template repeated")
 REQUIRED_MONITORS = ("cst_parse.post", "cst_scanner.post")
 ASSUMPTIONS = ["line numbers are 1-based and a node's line_no_end is the line on which the next node starts"]
 CUR = {}
@@ -63,7 +64,17 @@ def streams(ctx):
     return [("alphabet", (total + BLOCK - 1) // BLOCK), ("files", len(repo_files(ctx))),
             ("mutants", ctx.scale(300, 6000)), ("hand", len(HAND)), ("templates", (N_TEMPLATES + BLOCK - 1) // BLOCK),
             ("exotic", ctx.scale(30, 400)), ("quotes", (quotes_total(ctx) + BLOCK - 1) // BLOCK),
-            ("strexpr", ctx.scale(20, 300))]
+            ("strexpr", ctx.scale(20, 300)), ("repeats", (repeats_total(ctx) + BLOCK - 1) // BLOCK)]
+
+
+# (7) repetition: every sequence of length <= 3 (thorough: <= 4) over the wide alphabet, doubled and tripled, and every
+# header / body template doubled - two byte-identical neighbours are what a scanner that remembers its previous chunk confuses
+def repeats_n(ctx):
+    return ctx.scale(3, 4)
+
+
+def repeats_total(ctx):
+    return sum(len(ALPHABET) ** k for k in range(1, repeats_n(ctx) + 1)) + len(T_HEADERS) * len(T_BODIES)
 
 
 # (5) a second, deeper exhaustive sweep over the few tokens that open and close string literals: what the scanner decides
@@ -313,6 +324,23 @@ def run_case(ctx, P, stream, idx):
         for i in range(lo, hi):
             run_one(P, decode_quotes(i))
         P.bulk(hi - lo, hi - lo, klass="quotes", sample={"quotes_string": decode_quotes(hi - 1)})
+    elif stream == "repeats":
+        n_seq = sum(len(ALPHABET) ** k for k in range(1, repeats_n(ctx) + 1))
+        total = repeats_total(ctx)
+        lo, hi = idx * BLOCK, min(total, (idx + 1) * BLOCK)
+        last, n = "", 0
+        for i in range(lo, hi):
+            if i < n_seq:
+                x = decode(i + 1)  # (index 0 is the empty string)
+                forms = (x * 2, x * 3)
+            else:
+                j = i - n_seq
+                h, b = T_HEADERS[j % len(T_HEADERS)], T_BODIES[j // len(T_HEADERS)]
+                forms = (h + h, h + b + h + b, h + " " + b + "\n" + h + " " + b + "\n", h + b * 3, (h + "\n    " + b + "\n") * 2)
+            for last in forms:
+                run_one(P, last)
+                n += 1
+        P.bulk(n, n, klass="repeats", sample={"repeated_string": last})
     elif stream == "strexpr":
         r = ctx.rng(stream, idx)
         last, seen = "", set()
